@@ -71,6 +71,24 @@ def run(repo, rep, tier):
               where=L.where(cn_, again[0].lineno) if again else L.where(cn_),
               detail="statement values decoded upstream: %s; decoded again "
                      "at %s" % (upstream, [n.lineno for n in again]))
+    # 'the static text if it is default': for a static value that holds
+    # ${...} the original markup is the interpolated text, not its source
+    defs_ = [n for n in ast.walk(cn_.node) if isinstance(n, ast.Assign)
+             and src(n.targets[0]) == "default"
+             and "ast.Constant(text)" in src(n.value)]
+    plain_only = bool(defs_)
+    for n in defs_:
+        gs = [(src(P._cond(t_, True, None)[1]),
+               P._cond(t_, True, None)[2] == v_)
+              for t_, v_ in L.guards_of(n, cn_.node)
+              if not isinstance(t_, ast.ExceptHandler)]
+        if not L.cond_holds(gs, "'${' in text", False):
+            plain_only = False
+    rep.check(plain_only, "R07.3", cn_.qualname, "the default of a dynamic "
+              "attribute is the static text only where that text holds no "
+              "${...} (else 'default' would write the expression's source "
+              "instead of its value)", construct="default-interpolated",
+              where=L.where(cn_, defs_[0].lineno) if defs_ else L.where(cn_))
     # the table of HTML boolean attributes is a list of single words
     nt, glued = L.glued_words(repo, ("chameleon.zpt.template",
                                      "chameleon.zpt.program"))
